@@ -132,6 +132,9 @@ func (fa *ForAll) OnAccept(fn *ssa.Function, acc Accept) mpResult {
 				return false
 			}
 			ga, ok := accOfFn(g, a.Want)
+			if _, idx := callAndResult(a.V); a.Want == False && idx > 0 && idx < g.Signature.Results().Len() && isBoolType(g.Signature.Results().At(idx).Type()) {
+				ga, ok = AcceptFalse(idx), true // `_, found := firstOffender(xs)`: nothing found
+			}
 			if !ok {
 				return false
 			}
